@@ -1382,4 +1382,467 @@ theorem overlayCore_frame (self other r : Series) (hI : Inv self) (h : self.over
   · rw [h7 t v]; exact writeAll_frame _ _ _ _ _ _ _ h6 t v (Or.inl ht)
 
 
+/-! ### statistics, moving windows, fill, replace_where: invariant -/
+
+theorem inv_rowStat (f : StatFn) (s r : Series) (hI : Inv s) (h : s.rowStat f = .ok r) : Inv r := by
+  unfold Series.rowStat at h
+  split at h
+  · cases h
+  · simp only [pure, Except.pure, Except.ok.injEq] at h
+    subst h
+    apply inv_trim
+    · intro r hr
+      simp only [List.mem_map] at hr
+      obtain ⟨r0, _, rfl⟩ := hr
+      rfl
+    · intro hne
+      apply isSome_of_wf s hI.2
+      intro h0; apply hne; simp [h0]
+
+theorem length_movRows (f : MovFn) (wl nv : Nat) (rows : List Row) : (movRows f wl nv rows).length = rows.length := by
+  simp [movRows]
+
+theorem inv_movWindow (f : MovFn) (w : Option Int) (s r : Series) (hI : Inv s) (h : s.movWindow f w = .ok r) : Inv r := by
+  unfold Series.movWindow at h
+  simp only at h
+  split at h
+  · cases h
+  · simp only [pure, Except.pure, Except.ok.injEq] at h
+    subst h
+    apply inv_trim
+    · intro r hr
+      simp only [movRows, List.mem_map] at hr
+      obtain ⟨i, _, rfl⟩ := hr
+      simp
+    · intro hne
+      apply isSome_of_wf s hI.2
+      intro h0; apply hne
+      apply List.eq_nil_of_length_eq_zero
+      rw [length_movRows]; simp [h0]
+
+theorem inv_fillMissingP (s : Series) (m : FillMethod) (ps : List Period) (r : Series) (hI : Inv s)
+    (h : s.fillMissingP m ps = .ok r) : Inv r := by
+  unfold Series.fillMissingP at h
+  simp only [bind_ok] at h
+  obtain ⟨d, _, h2⟩ := h
+  exact inv_setDataP s ps _ .all r hI h2
+
+theorem inv_replaceWhere (t : TestFn) (new : Cell) (s : Series) (hI : Inv s) : Inv (s.replaceWhere t new) :=
+  inv_apply _ s hI
+
+/-! ### contiguous-span writes: overlay / underlay -/
+
+
+/-- the contiguous span `st, st+1, …, st+n-1` -/
+def spanList (st : Int) (n : Nat) : List Int := (List.range n).map (fun (i : Nat) => st + (i : Int))
+
+theorem spanList_succ (st : Int) (n : Nat) : spanList st (n + 1) = st :: spanList (st + 1) n := by
+  unfold spanList
+  rw [List.range_succ_eq_map]
+  simp only [List.map_cons, List.map_map]
+  congr 1
+  · simp
+  · apply List.map_congr_left
+    intro i _
+    simp only [Function.comp]
+    omega
+
+theorem spanSerials_eq (s : Series) (st : Int) (h : s.start = some st) : s.spanSerials = spanList st s.rows.length := by
+  simp [Series.spanSerials, h, spanList]
+
+/-- writing one variant over a contiguous span: inside the span the cell reads the written column, elsewhere nothing changes -/
+theorem writeCol_span (v : Nat) (n : Nat) : ∀ (st : Int) (vals : List Cell) (m : Map) (t : Int) (v' : Nat),
+    vals.length = n →
+    Map.writeCol m v ((spanList st n).zip vals) t v' =
+      if v' = v ∧ st ≤ t ∧ t < st + (n : Int) then (vals[(t - st).toNat]?).getD none else m t v' := by
+  induction n with
+  | zero =>
+    intro st vals m t v' _
+    have : ¬ (v' = v ∧ st ≤ t ∧ t < st + ((0 : Nat) : Int)) := by omega
+    rw [if_neg this]
+    simp [spanList, Map.writeCol]
+  | succ n ih =>
+    intro st vals m t v' hl
+    cases vals with
+    | nil => simp at hl
+    | cons c cs =>
+      rw [spanList_succ]
+      simp only [List.zip_cons_cons, Map.writeCol]
+      rw [ih (st + 1) cs _ t v' (by simpa using hl)]
+      unfold Map.write
+      by_cases h1 : v' = v
+      · by_cases h2 : st + 1 ≤ t ∧ t < st + 1 + (n : Int)
+        · have h3 : st ≤ t ∧ t < st + ((n + 1 : Nat) : Int) := by omega
+          rw [if_pos ⟨h1, h2⟩, if_pos ⟨h1, h3⟩]
+          have : (t - st).toNat = (t - (st + 1)).toNat + 1 := by omega
+          rw [this]; simp
+        · rw [if_neg (fun h => h2 h.2)]
+          by_cases h4 : t = st
+          · have h3 : st ≤ t ∧ t < st + ((n + 1 : Nat) : Int) := by omega
+            rw [if_pos ⟨h4, h1⟩, if_pos ⟨h1, h3⟩]
+            subst h4; simp
+          · have h3 : ¬ (st ≤ t ∧ t < st + ((n + 1 : Nat) : Int)) := by omega
+            rw [if_neg (fun h => h4 h.1), if_neg (fun h => h3 h.2)]
+      · rw [if_neg (fun h => h1 h.1), if_neg (fun h => h1 h.2), if_neg (fun h => h1 h.1)]
+
+/-- writing the variants `k, k+1, …, k+j-1` from per-variant columns over a contiguous span -/
+theorem writeAll_span (nv n : Nat) (st : Int) (data : DataArg) (colf : Nat → List Cell)
+    (hcol : ∀ k, k < nv → (data.variant k).values n = some (colf k) ∧ (colf k).length = n) :
+    ∀ (j k : Nat) (m : Map), k + j = nv →
+      ∃ m', Map.writeAll m nv (spanList st n) data ((List.range' k j).map (fun (i : Nat) => (i : Int))) k = some m' ∧
+        ∀ t v, m' t v = if (k ≤ v ∧ v < nv) ∧ st ≤ t ∧ t < st + (n : Int) then ((colf v)[(t - st).toNat]?).getD none else m t v := by
+  intro j
+  induction j with
+  | zero =>
+    intro k m hk
+    refine ⟨m, by simp [Map.writeAll], ?_⟩
+    intro t v
+    have : ¬ ((k ≤ v ∧ v < nv) ∧ st ≤ t ∧ t < st + (n : Int)) := by omega
+    rw [if_neg this]
+  | succ j ih =>
+    intro k m hk
+    have hk' : k < nv := by omega
+    obtain ⟨hv, hl⟩ := hcol k hk'
+    have hlen : (spanList st n).length = n := by simp [spanList]
+    simp only [List.range'_succ, List.map_cons, Map.writeAll, normIdx_nat nv k hk', hlen, hv]
+    obtain ⟨m', h1, h2⟩ := ih (k + 1) (m.writeCol k ((spanList st n).zip (colf k))) (by omega)
+    refine ⟨m', h1, ?_⟩
+    intro t v
+    rw [h2 t v, writeCol_span k n st (colf k) m t v hl]
+    by_cases c1 : st ≤ t ∧ t < st + (n : Int)
+    · by_cases c2 : k + 1 ≤ v ∧ v < nv
+      · rw [if_pos ⟨c2, c1⟩, if_pos ⟨⟨by omega, c2.2⟩, c1⟩]
+      · rw [if_neg (fun h => c2 h.1)]
+        by_cases c3 : v = k
+        · rw [if_pos ⟨c3, c1⟩, if_pos ⟨⟨by omega, by omega⟩, c1⟩, c3]
+        · rw [if_neg (fun h => c3 h.1), if_neg (fun h => by have := h.1; omega)]
+    · rw [if_neg (fun h => c1 h.2), if_neg (fun h => c1 h.2), if_neg (fun h => c1 h.2)]
+
+
+theorem exhaustThenLast_get {α} (l : List α) (d x : α) (k : Nat) (h : l[k]? = some x) : exhaustThenLast l d k = x := by
+  simp [exhaustThenLast, h]
+
+theorem inSpan_iff (s : Series) (t : Int) : InSpan s t ↔ ∃ st, s.start = some st ∧ st ≤ t ∧ t < st + (s.rows.length : Int) := by
+  unfold InSpan
+  constructor
+  · rintro ⟨st, h1, h2, h3⟩; exact ⟨st, h1, h2, by omega⟩
+  · rintro ⟨st, h1, h2, h3⟩; exact ⟨st, h1, h2, by omega⟩
+
+theorem not_mem_spanSerials (s : Series) (t : Int) (h : ¬ InSpan s t) : t ∉ s.spanSerials := by
+  intro hm
+  apply h
+  unfold Series.spanSerials at hm
+  cases hs : s.start with
+  | none => simp [hs] at hm
+  | some st =>
+    simp only [hs, List.mem_map, List.mem_range] at hm
+    obtain ⟨i, hi, rfl⟩ := hm
+    exact ⟨st, hs, by omega, by omega⟩
+
+/-- **overlay by span**: inside `other`'s reported span the result is `other` (missing values included), outside it is `self` -/
+theorem abs_overlayCore (self other r : Series) (hI : Inv self) (hO : Inv other) (hnv : self.nv = other.nv)
+    (h : self.overlayCore other = .ok r) (t : Int) (v : Nat) :
+    (InSpan other t → v < other.nv → r.abs t v = other.abs t v) ∧ (¬ InSpan other t → r.abs t v = self.abs t v) := by
+  refine ⟨?_, fun hn => (overlayCore_frame self other r hI h).2.2 t v (not_mem_spanSerials other t hn)⟩
+  intro hin hv
+  obtain ⟨so, hso, h1, h2⟩ := (inSpan_iff other t).mp hin
+  unfold Series.overlayCore at h
+  simp only [bind_ok, pure, Except.pure, Except.ok.injEq] at h
+  obtain ⟨x, hx, rfl⟩ := h
+  obtain ⟨hIx, _, _, h4⟩ := setData_spec _ _ _ _ x hI hx
+  rw [abs_trim _ hIx.1]
+  rw [spanSerials_eq other so hso] at h4
+  have hne : spanList so other.rows.length ≠ [] := by
+    intro h0
+    have : (spanList so other.rows.length).length = 0 := by rw [h0]; rfl
+    rw [spanList, List.length_map, List.length_range] at this
+    omega
+  rcases h4 with ⟨h0, _⟩ | ⟨_, _, m, h6, h7⟩
+  · exact absurd h0 hne
+  · rw [h7 t v]
+    let colf : Nat → List Cell := fun k => other.rows.map (fun r => (r[k]?).getD none)
+    have hcol : ∀ k, k < self.nv →
+        ((DataArg.array (transpose other.nv other.rows)).variant k).values other.rows.length = some (colf k) ∧
+        (colf k).length = other.rows.length := by
+      intro k hk
+      have hk' : k < other.nv := by omega
+      have e : ((transpose other.nv other.rows).map Col.column)[k]? = some (Col.column (colf k)) := by
+        simp [transpose, List.getElem?_map, List.getElem?_range hk', colf]
+      refine ⟨?_, by simp [colf]⟩
+      simp only [DataArg.variant]
+      rw [exhaustThenLast_get _ _ _ k e]
+      simp [Col.values, colf]
+    obtain ⟨m', h8, h9⟩ := writeAll_span self.nv other.rows.length so _ colf hcol self.nv 0 self.abs (by omega)
+    have hv0 : allVids self = (List.range' 0 self.nv).map (fun (i : Nat) => (i : Int)) := by
+      simp [allVids, resolveVariants, List.range_eq_range']
+    rw [hv0, h8] at h6
+    simp only [Option.some.injEq] at h6
+    subst h6
+    rw [h9 t v, if_pos ⟨⟨by omega, by omega⟩, h1, h2⟩]
+    simp only [colf, List.getElem?_map]
+    unfold Series.abs
+    simp only [hso, h1, if_true]
+    unfold cellAt
+    cases other.rows[(t - so).toNat]? <;> simp
+
+theorem broadcastPair_eq (a b : Series) (h : a.nv = b.nv) : broadcastPair a b = .ok (a, b) := by
+  unfold broadcastPair
+  rw [if_pos h]; rfl
+
+/-- `overlay` / `underlay` for equal numbers of variants -/
+theorem abs_overlay (self other r : Series) (hI : Inv self) (hO : Inv other) (hnv : self.nv = other.nv)
+    (h : self.overlay other = .ok r) (t : Int) (v : Nat) :
+    (InSpan other t → v < other.nv → r.abs t v = other.abs t v) ∧ (¬ InSpan other t → r.abs t v = self.abs t v) := by
+  unfold Series.overlay at h
+  rw [broadcastPair_eq _ _ hnv] at h
+  exact abs_overlayCore _ _ r hI hO hnv h t v
+
+theorem abs_underlay (self other r : Series) (hI : Inv self) (hO : Inv other) (hnv : self.nv = other.nv)
+    (h : self.underlay other = .ok r) (t : Int) (v : Nat) :
+    (InSpan self t → v < self.nv → r.abs t v = self.abs t v) ∧ (¬ InSpan self t → r.abs t v = other.abs t v) := by
+  unfold Series.underlay at h
+  rw [broadcastPair_eq _ _ hnv] at h
+  simp only [bind_ok, pure, Except.pure, Except.ok.injEq] at h
+  obtain ⟨x, h2, h3⟩ := h
+  subst h2
+  exact abs_overlay _ _ _ hO hI hnv.symm h3 t v
+
+
+/-! ### binary operators with variant broadcasting -/
+
+
+/-- the variant of an operand that numpy broadcasting pairs with variant `v` of the result -/
+def bidx (nv v : Nat) : Nat := if nv = 1 then 0 else v
+
+theorem cellAt_zipWith_bcast (f : Cell → Cell → Cell) (hf : ∀ x, f none x = none ∧ f x none = none) (na nb nv : Nat)
+    (da db : List Row) (hda : ∀ r ∈ da, r.length = na) (hdb : ∀ r ∈ db, r.length = nb) (i v : Nat) (hv : v < nv) :
+    cellAt (List.zipWith (zipRow f nv) da db) i v = f (cellAt da i (bidx na v)) (cellAt db i (bidx nb v)) := by
+  unfold cellAt
+  rw [List.getElem?_zipWith]
+  cases h1 : da[i]? with
+  | none => simp [(hf _).1]
+  | some ra =>
+    cases h2 : db[i]? with
+    | none => simp [(hf _).2]
+    | some rb =>
+      have la := hda ra (List.mem_of_getElem? h1)
+      have lb := hdb rb (List.mem_of_getElem? h2)
+      simp only [zipRow, List.getElem?_map, List.getElem?_range hv, Option.map_some, Option.getD_some, la, lb, bidx]
+
+theorem abs_none_of_ge_nv (s : Series) (hR : Rect s) (t : Int) (v : Nat) (hv : s.nv ≤ v) : s.abs t v = none := by
+  apply abs_eq_none_of_cells
+  intro i
+  unfold cellAt
+  cases hi : s.rows[i]? with
+  | none => rfl
+  | some r =>
+    have := hR r (List.mem_of_getElem? hi)
+    simp only
+    rw [List.getElem?_eq_none (by omega)]; rfl
+
+/-- **Alignment with variant broadcasting** (numpy rule: equal numbers of variants, or one operand with a single
+variant that is paired with every variant of the other) -/
+theorem abs_binop_bcast (f : Cell → Cell → Cell) (hf : ∀ x, f none x = none ∧ f x none = none) (a b r : Series) (nv : Nat)
+    (ha : Inv a) (hb : Inv b) (hbc : bcastNv a.nv b.nv = some nv) (h : a.binop f b = .ok r) (t : Int) (v : Nat) (hv : v < nv) :
+    r.nv = nv ∧ r.abs t v = f (a.abs t (bidx a.nv v)) (b.abs t (bidx b.nv v)) := by
+  unfold Series.binop at h
+  rw [hbc] at h
+  simp only at h
+  cases hlo : optMin a.start b.start with
+  | none =>
+    obtain ⟨h1, h2⟩ := optMin_none _ _ hlo
+    simp only [hlo, pure, Except.pure, Except.ok.injEq] at h
+    subst h
+    simp [Series.abs, Series.new, h1, h2, (hf none).1]
+  | some lo =>
+    cases hhi : optMax a.endSerial b.endSerial with
+    | none =>
+      obtain ⟨h1, h2⟩ := optMax_none _ _ hhi
+      have h1' : a.start = none := by cases hs : a.start <;> simp [Series.endSerial, hs] at h1 ⊢
+      have h2' : b.start = none := by cases hs : b.start <;> simp [Series.endSerial, hs] at h2 ⊢
+      simp [optMin, h1', h2'] at hlo
+    | some hi =>
+      simp only [hlo, hhi, pure, Except.pure, Except.ok.injEq] at h
+      subst h
+      obtain ⟨m1, m2⟩ := optMin_le _ _ lo hlo
+      obtain ⟨x1, x2⟩ := le_optMax _ _ hi hhi
+      have hRa := rect_slice a lo hi ha.1
+      have hRb := rect_slice b lo hi hb.1
+      refine ⟨nv_trim _, ?_⟩
+      rw [abs_trim]
+      · rw [abs_mk]
+        by_cases c1 : lo ≤ t
+        · simp only [c1, if_true]
+          rw [cellAt_zipWith_bcast f hf a.nv b.nv nv _ _ hRa hRb _ _ hv, cellAt_slice a ha.2, cellAt_slice b hb.2]
+          have e : lo + (((t - lo).toNat : Nat) : Int) = t := by omega
+          rw [e]
+          by_cases c2 : (((t - lo).toNat : Nat) : Int) < hi - lo + 1
+          · simp only [c2, if_true]
+          · simp only [c2, if_false]
+            rw [abs_none_of_gt_end a t _ (fun e he => by have := x1 e he; omega), (hf _).1, (hf _).1]
+        · simp only [c1, if_false]
+          rw [abs_none_of_lt_start a t _ (fun st hst => by have := m1 st hst; omega)]
+          exact ((hf _).1).symm
+      · intro r hr
+        simp only at hr
+        obtain ⟨i, hi'⟩ := List.mem_iff_getElem?.mp hr
+        rw [List.getElem?_zipWith] at hi'
+        split at hi'
+        · simp only [Option.some.injEq] at hi'; subst hi'; exact length_zipRow _ _ _ _
+        · cases hi'
+
+
+/-! ### row statistics -/
+
+/-- in a rectangular block a row is the list of its cells -/
+theorem row_eq_cells (rows : List Row) (nv : Nat) (hR : ∀ r ∈ rows, r.length = nv) (i : Nat) (row : Row)
+    (h : rows[i]? = some row) : row = (List.range nv).map (fun v => cellAt rows i v) := by
+  have hl := hR row (List.mem_of_getElem? h)
+  apply List.ext_getElem?
+  intro v
+  by_cases hv : v < nv
+  · rw [List.getElem?_map, List.getElem?_range hv]
+    simp only [Option.map_some, cellAt, h]
+    have : v < row.length := by omega
+    simp [List.getElem?_eq_getElem this]
+  · rw [List.getElem?_eq_none (by omega), List.getElem?_eq_none (by simp; omega)]
+
+/-- **row statistics**: at every period of the span the single variant of the result is the statistic of that period's
+cells (a fold over the variants, with the function's own NaN rule); outside the span there is nothing -/
+theorem abs_rowStat (f : StatFn) (s r : Series) (hI : Inv s) (h : s.rowStat f = .ok r) (t : Int) :
+    r.nv = 1 ∧ (InSpan s t → r.abs t 0 = f.eval ((List.range s.nv).map (fun v => s.abs t v))) ∧
+    (¬ InSpan s t → r.abs t 0 = none) := by
+  unfold Series.rowStat at h
+  split at h
+  · cases h
+  · simp only [pure, Except.pure, Except.ok.injEq] at h
+    subst h
+    have hRpre : Rect ({ s with nv := 1, rows := s.rows.map (fun r => [f.eval r]) } : Series) := by
+      intro r hr
+      simp only [List.mem_map] at hr
+      obtain ⟨r0, _, rfl⟩ := hr
+      rfl
+    refine ⟨nv_trim _, ?_, ?_⟩
+    · intro hin
+      obtain ⟨st, hst, h1, h2⟩ := (inSpan_iff s t).mp hin
+      rw [abs_trim _ hRpre]
+      have hlt : (t - st).toNat < s.rows.length := by omega
+      obtain ⟨row, hrow⟩ : ∃ row, s.rows[(t - st).toNat]? = some row := ⟨s.rows[(t - st).toNat], by simp [hlt]⟩
+      have e1 : ({ s with nv := 1, rows := s.rows.map (fun r => [f.eval r]) } : Series).abs t 0 = f.eval row := by
+        simp [Series.abs, hst, h1, cellAt, hrow]
+      rw [e1, row_eq_cells s.rows s.nv hI.1 _ row hrow]
+      congr 1
+      apply List.map_congr_left
+      intro v _
+      simp [Series.abs, hst, h1]
+    · intro hn
+      rw [abs_trim _ hRpre]
+      unfold Series.abs
+      cases hst : s.start with
+      | none => rfl
+      | some st =>
+        simp only
+        split
+        · rename_i c
+          have : s.rows.length ≤ (t - st).toNat := by
+            apply Nat.le_of_not_lt
+            intro hlt
+            exact hn ((inSpan_iff s t).mpr ⟨st, hst, c, by omega⟩)
+          exact cellAt_none_of_ge _ _ _ (by simpa using this)
+        · rfl
+
+
+/-! ### moving windows -/
+
+theorem strictVals_none_of_mem (l : List Cell) (h : none ∈ l) : strictVals l = none := by
+  induction l with
+  | nil => simp at h
+  | cons c cs ih =>
+    cases c with
+    | none => rfl
+    | some x =>
+      simp only [strictVals]
+      rw [ih (by simpa using h)]; rfl
+
+theorem movEval_none_of_mem (f : MovFn) (l : List Cell) (h : none ∈ l) : f.eval l = none := by
+  cases f <;> simp [MovFn.eval, strictVals_none_of_mem l h]
+
+/-- the window ending at `t`, oldest value first -/
+def windowOf (s : Series) (wl : Nat) (t : Int) (v : Nat) : List Cell :=
+  (List.range wl).map (fun (k : Nat) => s.abs (t - ((wl : Int) - 1) + (k : Int)) v)
+
+theorem window_none (f : MovFn) (s : Series) (wl : Nat) (hwl : 1 ≤ wl) (t : Int) (v : Nat) (h : s.abs t v = none) :
+    f.eval (windowOf s wl t v) = none := by
+  apply movEval_none_of_mem
+  unfold windowOf
+  rw [List.mem_map]
+  refine ⟨wl - 1, List.mem_range.mpr (by omega), ?_⟩
+  rw [← h]
+  congr 1
+  omega
+
+/-- **moving windows**: at every period `t` and variant `v` the result is the function of the window
+`abs s (t-wl+1) v, …, abs s t v` (missing-strict: one missing value, also before the start, makes it missing) -/
+theorem abs_movWindow (f : MovFn) (w : Option Int) (s r : Series) (hI : Inv s) (h : s.movWindow f w = .ok r)
+    (t : Int) (v : Nat) :
+    1 ≤ (-(w.getD s.defaultWindow)).toNat ∧
+    r.abs t v = f.eval (windowOf s (-(w.getD s.defaultWindow)).toNat t v) := by
+  unfold Series.movWindow at h
+  simp only at h
+  split at h
+  · cases h
+  · rename_i hw
+    simp only [pure, Except.pure, Except.ok.injEq] at h
+    subst h
+    generalize hwl : (-(w.getD s.defaultWindow)).toNat = wl at *
+    have hwl1 : 1 ≤ wl := by omega
+    refine ⟨hwl1, ?_⟩
+    have hRpre : Rect ({ s with rows := movRows f wl s.nv s.rows } : Series) := by
+      intro r hr
+      simp only [movRows, List.mem_map] at hr
+      obtain ⟨i, _, rfl⟩ := hr
+      simp
+    rw [abs_trim _ hRpre]
+    by_cases hv : v < s.nv
+    · unfold Series.abs
+      cases hst : s.start with
+      | none =>
+        simp only
+        exact (window_none f s wl hwl1 t v (by simp [Series.abs, hst])).symm
+      | some st =>
+        simp only
+        by_cases c1 : st ≤ t
+        · simp only [c1, if_true]
+          by_cases c2 : (t - st).toNat < s.rows.length
+          · have e : cellAt (movRows f wl s.nv s.rows) (t - st).toNat v =
+                f.eval ((List.range wl).map (fun k => cellAt (expand s.nv s.rows (wl - 1) 0) ((t - st).toNat + k) v)) := by
+              simp [movRows, cellAt, List.getElem?_map, List.getElem?_range c2, List.getElem?_range hv]
+            rw [e]
+            congr 1
+            unfold windowOf
+            apply List.map_congr_left
+            intro k hk
+            have hk' := List.mem_range.mp hk
+            rw [cellAt_expand]
+            show _ = Series.abs s _ v
+            unfold Series.abs
+            simp only [hst]
+            by_cases c3 : (t - st).toNat + k < wl - 1
+            · have : ¬ st ≤ t - ((wl : Int) - 1) + (k : Int) := by omega
+              simp only [c3, this, if_true, if_false]
+            · have c4 : st ≤ t - ((wl : Int) - 1) + (k : Int) := by omega
+              simp only [c3, c4, if_true, if_false]
+              congr 1; omega
+          · have e : cellAt (movRows f wl s.nv s.rows) (t - st).toNat v = none :=
+              cellAt_none_of_ge _ _ _ (by rw [length_movRows]; omega)
+            rw [e]
+            exact (window_none f s wl hwl1 t v (by
+              simp only [Series.abs, hst, c1, if_true]
+              exact cellAt_none_of_ge _ _ _ (by omega))).symm
+        · simp only [c1, if_false]
+          exact (window_none f s wl hwl1 t v (by simp [Series.abs, hst, c1])).symm
+    · rw [abs_none_of_ge_nv _ hRpre t v (by simpa using Nat.le_of_not_lt hv)]
+      exact (window_none f s wl hwl1 t v (abs_none_of_ge_nv s hI.1 t v (Nat.le_of_not_lt hv))).symm
+
+
 end IrisVerif.Series
